@@ -26,6 +26,9 @@ import traceback
 VERIF = os.path.dirname(os.path.dirname(os.path.abspath(__file__)))
 LEAN = os.path.join(VERIF, 'lean')
 REPO = os.environ.get('VERIF_REPO', '/repo')
+# where evidence/ and replays/ are written: /verif itself for every registered check; scratch evaluations of seeded changes
+# (tools/seed_eval_par.py) point this somewhere else so that they never touch the committed evidence
+OUT = os.environ.get('VERIF_OUT') or VERIF
 DRIVER_EXE = os.path.join(LEAN, '.lake', 'build', 'bin', 'cvdriver')
 ALLOWED_AXIOMS = {'propext', 'Classical.choice', 'Quot.sound'}
 HYGIENE = re.compile(
@@ -342,7 +345,7 @@ def load_known(prop):
 
 
 def write_replay(prop, seed, tag, payload):
-    d = os.path.join(VERIF, 'replays')
+    d = os.path.join(OUT, 'replays')
     os.makedirs(d, exist_ok=True)
     safe = re.sub(r'[^A-Za-z0-9_.-]+', '_', tag)[:60]
     path = os.path.join(d, f'{prop}-{safe}-seed{seed}.json')
@@ -352,7 +355,7 @@ def write_replay(prop, seed, tag, payload):
 
 
 def write_evidence(prop, tier, seed, ctx, gate, wall, nviol, extra=None):
-    d = os.path.join(VERIF, 'evidence')
+    d = os.path.join(OUT, 'evidence')
     os.makedirs(d, exist_ok=True)
     params_ok = sum(1 for p in ctx.params if p['ok'])
     cov = {
